@@ -241,6 +241,27 @@ class Interp:
             out = self.output_path(state, self.result_path(state, raw, result, t), ctx, t)
         elif typ == "Choice":
             inp = self.read_path(state.get("InputPath", "$"), raw, ctx, t=t)
+            # a rule that looks at a value the oracle does not model (the text of a Cause) has no defined outcome here
+            def _paths(rule, acc):
+                if isinstance(rule, dict):
+                    for k, v in rule.items():
+                        if (k == "Variable" or k.endswith("Path")) and isinstance(v, str) and v.startswith("$"):
+                            acc.append(v)
+                        else:
+                            _paths(v, acc)
+                elif isinstance(rule, list):
+                    for x in rule:
+                        _paths(x, acc)
+                return acc
+
+            def _has_any(v):
+                return v is ANY or (isinstance(v, dict) and any(_has_any(x) for x in v.values())) or (isinstance(v, list) and any(_has_any(x) for x in v))
+            for pth in _paths(state.get("Choices", []), []):
+                try:
+                    if _has_any(self.read_path(pth, inp, ctx, t=t)):
+                        raise Unspec("choice rule over a value that is not modelled (Cause text)")
+                except StateError:
+                    pass
             kind, target = rc.choose(state, inp, ctx)
             if kind == "unspec":
                 raise Unspec("choice rule outcome unspecified")
